@@ -93,4 +93,68 @@ func (*Stream).injectGroupKeyExprs
   props C04 C20
   modifies allmaps
   atreturn every-function-key-is-attempted: $done1
+
+// ---------------------------------------------------------------- C16: stream-table JOIN
+guarded_by MemoryTableSource.mu: index
+immutable MemoryTableSource: keyFields, name
+monitor MemoryTableSource.mu inv tableInv
+
+pred tableInv(m) := m.index != nil
+
+extern encodeKey
+  props C16
+  option pure
+
+func (*MemoryTableSource).encodeRow
+  props C16
+  ensures key-values-in-indexed-order: len(result) == len(m.keyFields) && forall(i, 0, len(m.keyFields), result[i] == row[m.keyFields[i]])
+  loop 1 invariant len(vals) == len(m.keyFields) && forall(j, 0, $i, vals[j] == row[m.keyFields[j]])
+
+func (*MemoryTableSource).Lookup
+  props C16
+  acquires m.mu
+  ensures reads-the-entry-of-the-key: result1 == dom(m.index, encodeKey(key)) && (result1 ==> result0 == m.index[encodeKey(key)])
+
+func (*MemoryTableSource).Upsert
+  props C16
+  acquires m.mu
+  modifies mapof(m.index)
+  observe key := encodeKey
+  observe keyvals := encodeRow
+  ensures row-visible-under-its-key: dom(m.index, $key) && m.index[$key] == row
+  ensures other-rows-untouched: forallv(k, "", k != $key ==> (dom(m.index, k) <==> old(dom(m.index, k))) && m.index[k] == old(m.index[k]))
+  ensures key-values-are-the-rows-key-fields: len($keyvals) == len(m.keyFields) && forall(i, 0, len(m.keyFields), $keyvals[i] == row[m.keyFields[i]])
+
+func (*MemoryTableSource).Delete
+  props C16
+  acquires m.mu
+  modifies mapof(m.index)
+  ensures row-gone: !dom(m.index, encodeKey(key))
+  ensures other-rows-untouched: forallv(k, "", k != encodeKey(key) ==> (dom(m.index, k) <==> old(dom(m.index, k))) && m.index[k] == old(m.index[k]))
+
+func NewMemoryTableSource
+  props C16
+  ensures fresh(result) && tableInv(result)
+
+func (*tableStore).get
+  props C16
+  ensures true
+
+extern iface.TableSource.Lookup
+  props C16
+
+func streamFieldValue
+  props C16
+  ensures bare-name-direct-lookup: true
+
+func (*Stream).enrichJoin
+  props C16 C20
+  ensures no-join-passes-the-row-through: len(s.config.JoinConfigs) == 0 ==> working == data && keep && err == nil
+  ensures join-works-on-a-copy: len(s.config.JoinConfigs) > 0 && working != nil ==> fresh(working)
+  ensures dropped-rows-return-nothing: !keep ==> working == nil
+  ensures kept-rows-have-no-error: keep ==> err == nil
+  observe registered := get
+  loop 1 invariant fresh(working) && working != nil
+  loop 2 invariant fresh(working) && working != nil
+  loop 3 invariant fresh(working) && working != nil
 @*/
